@@ -3,6 +3,7 @@ package graphql
 import (
 	"context"
 	"fmt"
+	"sort"
 
 	"github.com/graphql-go/graphql/gqlerrors"
 	"github.com/graphql-go/graphql/language/parser"
@@ -146,10 +147,14 @@ func ExecuteSubscription(p ExecuteParams) chan *Result {
 			SelectionSet: exeContext.Operation.GetSelectionSet(),
 		})
 
+		// A subscription operation has one root field. If the document selects
+		// several, pick the same one every time instead of whichever the map
+		// iteration yields first.
 		responseNames := []string{}
 		for name := range fields {
 			responseNames = append(responseNames, name)
 		}
+		sort.Strings(responseNames)
 		responseName := responseNames[0]
 		fieldNodes := fields[responseName]
 		fieldNode := fieldNodes[0]
